@@ -2,7 +2,7 @@
 import time
 from lib import vlib
 from checks.v2common import Acc
-from checks.v1common import trace_v1
+from checks.v1common import trace_v1, library_panic
 from checks.c15 import run_lic
 import os
 from lib.vlib import tlc, tlc_require_ok, go_overlay_test, read_ndjson, sub
@@ -32,6 +32,8 @@ def run():
     for r in recs:
         if r.get("ev") == "loadfail":
             v.fail("loadfail", r)
+    if rc != 0:
+        library_panic(v, txt, "serializer driver")      # a panic inside the library (not the driver) is the violation itself
     if rc != 0 and not v.violations:
         raise vlib.Inconclusive("C16 driver ended abnormally:\n" + txt[-3000:])
     lines = trace_v1(v, acc, recs, "corpus self identification")
